@@ -344,8 +344,12 @@ func ruleRollback(w *World, r *Report, rule string) {
 			}
 		}
 		// the rejection edge: err != nil after detectCyclesFrom
-		if be, ok := c.(*ast.BinaryExpr); ok && be.Op == token.NEQ && (isNilIdent(info, be.Y) || isNilIdent(info, be.X)) {
-			if o := objOf(info, be.X); o != nil && isErrorType(o.Type()) && i == 0 {
+		if be, ok := c.(*ast.BinaryExpr); ok && (be.Op == token.NEQ || be.Op == token.EQL) && (isNilIdent(info, be.Y) || isNilIdent(info, be.X)) {
+			o := objOf(info, be.X)
+			if isNilIdent(info, be.X) {
+				o = objOf(info, be.Y)
+			}
+			if o != nil && isErrorType(o.Type()) && (be.Op == token.NEQ) == (i == 0) {
 				gen = append(gen, "rejected")
 			}
 		}
@@ -454,19 +458,21 @@ func ruleSearchComplete(w *World, r *Report, rule string) {
 			dfs = cal
 			// guards around the call: only tests mentioning Visited/visited
 			bad := ""
+			var guardExprs []ast.Expr
 			var walk func(stmts []ast.Stmt, guards []string)
 			walk = func(stmts []ast.Stmt, guards []string) {
 				for _, st := range stmts {
 					if ifs, ok := st.(*ast.IfStmt); ok {
 						if isInside(c, ifs.Body) {
 							gs := append(guards, exprStr(ifs.Cond))
+							guardExprs = append(guardExprs, ifs.Cond)
 							walk(ifs.Body.List, gs)
 							continue
 						}
 						if ifs.Init != nil && isInside(c, ifs.Init) {
-							for _, gd := range guards {
-								if !containsFold(gd, "visited") {
-									bad = gd
+							for _, gd := range guardExprs {
+								if !isVisitedTest(info, gd) {
+									bad = exprStr(gd)
 								}
 							}
 						}
@@ -529,7 +535,7 @@ func ruleSearchComplete(w *World, r *Report, rule string) {
 		for _, st := range rs.Body.List {
 			switch s := st.(type) {
 			case *ast.IfStmt:
-				if !containsFold(exprStr(s.Cond), "visited") {
+				if !isVisitedTest(finfo, s.Cond) {
 					bad = "successors are only followed when " + exprStr(s.Cond)
 				}
 			case *ast.AssignStmt, *ast.ExprStmt:
@@ -565,7 +571,7 @@ func ruleSearchComplete(w *World, r *Report, rule string) {
 				bad = "the search returns 'no cycle' early when " + cond
 			}
 		case *ast.BranchStmt:
-			if s.Tok == token.CONTINUE && !containsFold(cond, "visit") {
+			if s.Tok == token.CONTINUE && !isVisitedTest(finfo, ifs.Cond) && !containsFold(cond, "visit") {
 				bad = "the search skips nodes when " + cond
 			}
 		}
@@ -574,6 +580,41 @@ func ruleSearchComplete(w *World, r *Report, rule string) {
 	r.Check(bad == "", rule, fi.Name()+"#follows-every-edge", fi.Decl.Pos(), true,
 		"the search follows every outgoing edge of every node it reaches; only the visited test may prune",
 		fi.Name()+": "+bad+": cycles through such nodes are missed")
+}
+
+// isVisitedTest: the condition only consults traversal bookkeeping - a local
+// map[NodeKey]bool (whatever its name) or a bool field of Node.
+func isVisitedTest(info *types.Info, cond ast.Expr) bool {
+	ok := false
+	bad := false
+	ast.Inspect(cond, func(n ast.Node) bool {
+		switch x := n.(type) {
+		case *ast.IndexExpr:
+			if tv, has := info.Types[x.X]; has {
+				if m, isMap := tv.Type.Underlying().(*types.Map); isMap {
+					if b, isB := m.Elem().Underlying().(*types.Basic); isB && b.Info()&types.IsBoolean != 0 {
+						if _, isLocal := objOf(info, x.X).(*types.Var); isLocal && fieldOf(info, x.X) == nil {
+							ok = true
+							return false
+						}
+					}
+				}
+			}
+			bad = true
+		case *ast.SelectorExpr:
+			if fv := fieldOf(info, x); fv != nil {
+				if b, isB := fv.Type().Underlying().(*types.Basic); isB && b.Info()&types.IsBoolean != 0 && (fv.Name() == "Visited" || fv.Name() == "Visiting" || containsFold(fv.Name(), "visit") || containsFold(fv.Name(), "enter")) {
+					ok = true
+					return false
+				}
+				bad = true
+			}
+		case *ast.CallExpr:
+			bad = true
+		}
+		return true
+	})
+	return ok && !bad
 }
 
 func containsFold(s, sub string) bool {
